@@ -43,18 +43,19 @@ Definition entry_cmp (m : option Qc) (o : option Qc) : bool :=
   | Some q, Some f => qclose 16 1 q f
   | _, _ => false
   end.
-Definition row_cmp (eps t : Qc) (cells : list cell) (m : module) (row : list (option Qc)) : bool :=
+(* the neighbours of every cell are tabulated once ([nb_table]; SystemFacts.model_a_tab: the same as model_a) *)
+Definition row_cmp (nbs : list (list nat)) (t : Qc) (cells : list cell) (m : module) (row : list (option Qc)) : bool :=
   Nat.eqb (List.length row) (List.length cells) &&
-  forallb (fun p => entry_cmp (model_a eps t cells m (fst p)) (snd p)) (indexed_from 0 row).
+  forallb (fun p => entry_cmp (model_a_with (nth (fst p) nbs []) t cells m (fst p)) (snd p)) (indexed_from 0 row).
 (* rows: (key, row) for every key of model.a that the rule decides, in the order of problem_modules *)
-Fixpoint table_cmp_aux (eps t : Qc) (cells : list cell) (pms : list module)
+Fixpoint table_cmp_aux (nbs : list (list nat)) (t : Qc) (cells : list cell) (pms : list module)
   (rows : list (string * list (option Qc))) : bool :=
   match pms, rows with
   | [], [] => true
   | m :: pms', kr :: rows' =>
-      String.eqb (mname m) (fst kr) && row_cmp eps t cells m (snd kr) && table_cmp_aux eps t cells pms' rows'
+      String.eqb (mname m) (fst kr) && row_cmp nbs t cells m (snd kr) && table_cmp_aux nbs t cells pms' rows'
   | _, _ => false
   end.
 Definition table_cmp (eps t : Qc) (cells : list cell) (mods : list module)
   (rows : list (string * list (option Qc))) : bool :=
-  table_cmp_aux eps t cells (problem_modules mods) rows.
+  let nbs := nb_table eps cells in table_cmp_aux nbs t cells (problem_modules mods) rows.
